@@ -285,8 +285,12 @@ impl Property for C12 {
         if lin.constant != lo {
             mon.violation("C12.constant", format!("constant {} but ceil(lower) = {lo}\n{}", lin.constant, ctx(&after, &lin)));
         }
-        let new_vars: Vec<&v1::DecisionVariable> = after.decision_variables.iter().skip(before.decision_variables.len()).collect();
-        if after.decision_variables.len() < before.decision_variables.len() || after.decision_variables[..before.decision_variables.len()] != before.decision_variables[..] {
+        // new variables = those whose id the instance did not define before (where the SDK puts them in
+        // the list is not part of the property); the others must be unchanged
+        let old_ids: BTreeSet<u64> = before.decision_variables.iter().map(|v| v.id).collect();
+        let new_vars: Vec<&v1::DecisionVariable> = after.decision_variables.iter().filter(|v| !old_ids.contains(&v.id)).collect();
+        let kept: Vec<v1::DecisionVariable> = after.decision_variables.iter().filter(|v| old_ids.contains(&v.id)).cloned().collect();
+        if !crate::gen::same_variables(&kept, &before.decision_variables) {
             mon.violation("C12.existing-variables-changed", ctx(&after, &lin));
             return;
         }
